@@ -108,3 +108,21 @@ Definition show (k : case) : list Z :=
 (* the pre-fix model, for the seeded-defect demonstration and the refutation witnesses *)
 Definition model_eval_prefix (c : clause) (edb : list fact) : option (list fact) :=
   eval_clause edb (fun _ => edb) (replace_wildcards (rewrite_prefix c)).
+
+(* ---- built-in stream (added when the check was strengthened after seeding). The clause may
+   contain built-in atoms: PAtom / PNeg with a predicate number of go_table (Analysis/BuiltinCheck.v;
+   constants the syntax cannot express - maps, structs - are sent as CNum 0: the analysis model
+   never looks inside a constant). Only the verdict of analysis and the premise order are judged
+   by the model; the engine model has no built-ins, evaluation is judged by the property-level
+   oracle of checks/c04.py on Go's own output. A case of this stream has k_rounds = -1. *)
+From MV Require Export Analysis.BuiltinCheck.
+
+Definition judge_b (k : case) : Z :=
+  let c := k_clause k in
+  let m := xaccepted go_table c in
+  if negb (Bool.eqb m (k_accept k)) then (if k_accept k then 1 else 2)
+  else if negb m then 0
+  else if negb (same_order c (k_perm k)) then 3
+  else 0.
+
+Definition judge_x (k : case) : Z := if k_rounds k <? 0 then judge_b k else judge k.
